@@ -1,5 +1,185 @@
+//! C18 — reported statistics count what actually happened (probe counts vs Solution counters).
+
+use super::common::*;
 use crate::ctx::{Ctx, Meta};
+use crate::probe::*;
 use crate::report::Report;
+use crate::rng::Rng;
+use crate::util::par_for;
+use ivp::prelude::*;
+use serde_json::json;
+
 pub fn run(ctx: &Ctx) -> (Report, Meta) {
-    (Report::new(&ctx.prop), Meta::new("not built yet"))
+    let meta = Meta::new(
+        "random bounded problems x 6 methods x tolerances x directions x analytic / finite-difference Jacobian x {plain, t_eval, dense, events, max_steps, max_step} through solve_ivp, plus the low-level builders with a recording SolOut (dense on/off), plus zero-length runs; non-trivial = run with at least one rejected step or one Jacobian evaluation (distinct by scenario hash)",
+    )
+    .assume("evaluations made while differencing a Jacobian are separated from stepper evaluations by delegating the default Jacobian to an inner IVP under a flag")
+    .floor("runs_checked", 500)
+    .floor("runs_with_rejections", 50)
+    .floor("runs_with_jacobian", 100)
+    .floor("low_level_runs_checked", 100);
+    let g = GenOpts {
+        allow_t_eval: true,
+        allow_events: true,
+        allow_max_step: true,
+        allow_max_steps: true,
+        bidirectional_problems: false,
+        ..Default::default()
+    };
+    let nrand = ctx.size(3_000, 150_000);
+    let rep = par_for(nrand, "C18", |i, rep| {
+        let case_id = format!("run/{}", i);
+        if !ctx.want(&case_id) {
+            return;
+        }
+        let mut rng = Rng::derive(ctx.seed, 18, i as u64);
+        let (mut prob, mut scn) = gen_case(&mut rng, &g);
+        // problems with many rejections: discontinuous forcing one time in four
+        if i % 4 == 0 {
+            prob = crate::problems::Simple::Disc { w: rng.range(1.0, 5.0) };
+            scn.y0 = vec![rng.range(-1.0, 1.0)];
+            scn.events.clear();
+            scn.rtol = Tol::S(scn.rtol.at(0));
+            scn.atol = Tol::S(scn.atol.at(0));
+            if scn.dir() < 0.0 {
+                // damped problem: integrate forward
+                let span = (scn.xend - scn.x0).abs();
+                scn.xend = scn.x0 + span;
+                if let Some(te) = scn.t_eval.as_mut() {
+                    for t in te.iter_mut() {
+                        *t = scn.x0 + (scn.x0 - *t);
+                    }
+                }
+            }
+        } else if scn.dir() < 0.0 && !matches!(prob, crate::problems::Simple::Osc { .. } | crate::problems::Simple::LV { .. } | crate::problems::Simple::Lin3 { .. }) {
+            return;
+        }
+        let m = mname(scn.method);
+        let jmode = if !is_implicit(scn.method) { "explicit" } else if scn.user_jac { "user_jac" } else { "fd_jac" };
+        let zero_len = i % 61 == 0;
+        if zero_len {
+            scn.xend = scn.x0;
+            scn.t_eval = None;
+        }
+        let res = run_solve(&prob, &scn, false, false);
+        rep.eval();
+        let sol = match &res.out {
+            Outcome::Ok(s) => s,
+            Outcome::Budget => {
+                rep.inconclusive("evaluation_budget_exhausted");
+                return;
+            }
+            Outcome::Err(_) => {
+                rep.count("config_errors_returned", 1);
+                return;
+            }
+            Outcome::Panic(msg) => {
+                rep.violate(&format!("C18/no_panic/{}/{}", m, jmode), format!("panic: {}", msg), &case_id, scn.describe(&prob));
+                return;
+            }
+        };
+        rep.count("runs_checked", 1);
+        let case = || {
+            let mut c = scn.describe(&prob);
+            c["reported"] = json!({"nfev": sol.nfev, "njev": sol.njev, "nstep": sol.nstep, "naccpt": sol.naccpt, "nrejct": sol.nrejct, "len_t": sol.t.len(), "status": format!("{:?}", sol.status)});
+            c["observed"] = json!({"ode_calls_stepper": res.log.n_ode, "ode_calls_in_jacobian_differencing": res.log.n_ode_jac, "jac_calls": res.log.n_jac});
+            c
+        };
+        if zero_len {
+            rep.count("zero_length_runs", 1);
+            if sol.nfev + sol.njev + sol.nlu + sol.nstep + sol.naccpt + sol.nrejct != 0 {
+                rep.violate(&format!("C18/zero_length_counters/{}/{}", m, jmode), "non-zero counter for the zero-length run".into(), &case_id, case());
+            }
+            return;
+        }
+        if sol.nrejct > 0 {
+            rep.count("runs_with_rejections", 1);
+        }
+        if res.log.n_jac > 0 {
+            rep.count("runs_with_jacobian", 1);
+        }
+        if sol.nrejct > 0 || res.log.n_jac > 0 {
+            rep.nontrivial(scn_hash(&scn, &prob));
+        }
+        if sol.nfev as u64 != res.log.n_ode {
+            rep.violate(
+                &format!("C18/nfev/{}/{}", m, jmode),
+                format!("nfev = {} but the stepper evaluated the right-hand side {} times ({} more inside Jacobian differencing)", sol.nfev, res.log.n_ode, res.log.n_ode_jac),
+                &case_id,
+                case(),
+            );
+        }
+        if sol.njev as u64 != res.log.n_jac {
+            rep.violate(&format!("C18/njev/{}/{}", m, jmode), format!("njev = {} but jac was called {} times", sol.njev, res.log.n_jac), &case_id, case());
+        }
+        if sol.nstep < sol.naccpt {
+            rep.violate(&format!("C18/nstep_ge_naccpt/{}/{}", m, jmode), format!("nstep = {} < naccpt = {}", sol.nstep, sol.naccpt), &case_id, case());
+        }
+        let filtered = scn.t_eval.is_some() || scn.first_step.is_some() || scn.events.iter().any(|e| e.terminal.is_some());
+        if !filtered {
+            rep.count("interval_counts_checked", 1);
+            if sol.naccpt + 1 != sol.t.len() {
+                rep.violate(
+                    &format!("C18/naccpt_vs_intervals/{}/{}", m, jmode),
+                    format!("naccpt = {} but {} intervals were reported", sol.naccpt, sol.t.len().saturating_sub(1)),
+                    &case_id,
+                    case(),
+                );
+            }
+        }
+        if i % 997 == 0 {
+            rep.sample(case());
+        }
+    });
+
+    // low-level builders: naccpt == number of post-initial callbacks, nfev == probe count
+    let nlow = ctx.size(600, 30_000);
+    let rep2 = par_for(nlow, "C18", |i, rep| {
+        let case_id = format!("low/{}", i);
+        if !ctx.want(&case_id) {
+            return;
+        }
+        let mut rng = Rng::derive(ctx.seed, 1818, i as u64);
+        let g2 = GenOpts { bidirectional_problems: true, ..Default::default() };
+        let (prob, scn) = gen_case(&mut rng, &g2);
+        let m = mname(scn.method);
+        let mut probe = Probe::new(&prob, scn.x0);
+        probe.user_jac = scn.user_jac;
+        probe.budget = 600_000;
+        let dense = rng.bool();
+        let lo = LowOpts { dense, ..Default::default() };
+        let mut so = RecSolOut::new(Some(&probe));
+        let out = run_low_guarded(scn.method, &probe, scn.x0, &scn.y0, scn.xend, &scn.rtol, &scn.atol, &lo, &mut so);
+        rep.eval();
+        let case = scn.describe(&prob);
+        match out {
+            LowOutcome::Ok(ir) => {
+                rep.count("low_level_runs_checked", 1);
+                let log = probe.take_log();
+                let ncb = so.cbs.len().saturating_sub(1);
+                if ir.steps.accepted != ncb {
+                    rep.violate(&format!("C18/naccpt_vs_callbacks/{}/low_level", m), format!("steps.accepted = {} but {} post-initial callbacks were made", ir.steps.accepted, ncb), &case_id, case.clone());
+                }
+                if ir.evals.ode as u64 != log.n_ode {
+                    rep.violate(&format!("C18/nfev/{}/low_level_dense_{}", m, dense), format!("evals.ode = {} but {} stepper evaluations observed", ir.evals.ode, log.n_ode), &case_id, case.clone());
+                }
+                if ir.evals.jac as u64 != log.n_jac {
+                    rep.violate(&format!("C18/njev/{}/low_level", m), format!("evals.jac = {} but {} jac calls observed", ir.evals.jac, log.n_jac), &case_id, case.clone());
+                }
+                if ir.steps.total < ir.steps.accepted {
+                    rep.violate(&format!("C18/nstep_ge_naccpt/{}/low_level", m), "steps.total < steps.accepted".into(), &case_id, case.clone());
+                }
+                if ir.steps.rejected > 0 {
+                    rep.nontrivial(scn_hash(&scn, &prob) ^ 0x5555);
+                }
+            }
+            LowOutcome::Budget => rep.inconclusive("evaluation_budget_exhausted"),
+            LowOutcome::Err(_) => rep.count("config_errors_returned", 1),
+            LowOutcome::Panic(msg) => rep.violate(&format!("C18/no_panic/{}/low_level", m), format!("panic: {}", msg), &case_id, case),
+        }
+    });
+    let mut rep = rep;
+    rep.merge(rep2);
+    let _ = Status::Success;
+    (rep, meta)
 }
